@@ -130,7 +130,10 @@ AlterActionAt(B, T, D, s, e) ==
            skipIne(i) == IF IsWordU(T, i, "IF") /\ IsWordU(T, i + 1, "NOT") /\ IsWordU(T, i + 2, "EXISTS") THEN i + 3 ELSE i IN
     CASE u = "ADD" /\ (IsWordU(T, s + 1, "CONSTRAINT") \/ IsWordU(T, s + 1, "FOREIGN") \/ IsWordU(T, s + 1, "UNIQUE") \/ IsWordU(T, s + 1, "PRIMARY") \/ IsWordU(T, s + 1, "CHECK")) ->
            LET r == TableElemAt(B, T, D, s + 1, e) IN IF ~r.ok THEN r ELSE GOk([k |-> "add_constraint", c |-> r.v], e)
-      [] u = "ADD" -> LET c == ColumnDefAt(B, T, D, skipIne(skipCol(s + 1)), e) IN IF ~c.ok THEN c ELSE GOk([k |-> "add_column", col |-> c.v], e)
+      [] u = "ADD" -> LET hasIne == skipIne(skipCol(s + 1)) # skipCol(s + 1)
+                          c == ColumnDefAt(B, T, D, skipIne(skipCol(s + 1)), e)
+                      IN IF hasIne /\ B = "mysql" THEN GErr("mysql_has_no_ADD_COLUMN_IF_NOT_EXISTS")
+                         ELSE IF ~c.ok THEN c ELSE GOk([k |-> "add_column", col |-> c.v, ine |-> hasIne], e)
       [] u = "MODIFY" -> IF B # "mysql" THEN GErr("MODIFY_is_mysql_only")
                          ELSE LET c == ColumnDefAt(B, T, D, skipCol(s + 1), e) IN IF ~c.ok THEN c ELSE GOk([k |-> "modify_column", col |-> c.v], e)
       [] u = "RENAME" /\ IsWordU(T, s + 1, "COLUMN") ->
@@ -384,6 +387,8 @@ TypeOk(B, t, ty, autoinc) ==
 \* a column prefix length (MySQL `col (n)`) among the columns of an index or key
 HasPrefixCol(cs) == \E i \in DOMAIN cs : "p" \in DOMAIN cs[i]
 Unsupported14(B, d) ==
+  \* MySQL (8.0) has no ADD COLUMN IF NOT EXISTS
+  (B = "mysql" /\ d.stmt = "table_alter" /\ \E i \in DOMAIN d.ops : d.ops[i].k = "add_column_if_not_exists") \/
   \* PostgreSQL has no prefix indexes (`"c" (8)` would be a call of a function c)
   (B = "pg" /\ ((d.stmt = "index_create" /\ HasPrefixCol(d.cols)) \/ (d.stmt = "table_create" /\ "indexes" \in DOMAIN d /\ \E i \in DOMAIN d.indexes : HasPrefixCol(d.indexes[i].cols)))) \/
   (d.stmt = "table_create" /\ B = "pg" /\ "indexes" \in DOMAIN d /\ \E i \in DOMAIN d.indexes : ~("primary" \in DOMAIN d.indexes[i] /\ d.indexes[i].primary) /\ ~("unique" \in DOMAIN d.indexes[i] /\ d.indexes[i].unique))
